@@ -1,10 +1,8 @@
-// vcheck: one binary, one sub-checker per property.
+// vcheck: one binary; check.sh adds (through the overlay) a file importing the
+// package of the property being checked, so a checker that does not build
+// cannot break the others.
 package main
 
-import (
-	"verif/engine/common"
-
-	_ "verif/engine/props/c12"
-)
+import "verif/engine/common"
 
 func main() { common.Main() }
